@@ -71,7 +71,8 @@ def gen_task(rng, lay, i, focus, knobs):
     if ranks > 1 and rng.random() < 0.25:
         d['ranks_per_node'] = rng.choice([1, 2])
     if rng.random() < knobs.get('tag_share', 0.15):
-        d['tags'] = {'colocate': 'tag%d' % rng.randint(0, 1)}
+        d['tags'] = {'colocate': rng.choice(['tag0', 'tag1', 'tag0', 'tag1',
+                                             0, 1])}
         if rng.random() < 0.4:
             d['tags']['exclusive'] = True
     if rng.random() < 0.3:
@@ -1147,8 +1148,9 @@ def oracle_c04(sim, sc, st):
         # plain per-rank accounting: not judged
         g = d.get('gpus_per_rank') or 0
         return bool(sc.get('jsrun')) and g != int(g)
-    plain = [u for u in pool if not (descr[u].get('tags') or {}).get(
-        'colocate') and not descr[u].get('named_env')
+    plain = [u for u in pool if 'colocate' not in (descr[u].get('tags') or
+                                                   {})
+        and not descr[u].get('named_env')
         and not descr[u].get('slots') and not rs_shared(descr[u])]
     if idle and pool and len(plain) == len(pool):
         fit = [u for u in pool if fits_idle(descr[u], lay)]
@@ -1181,7 +1183,7 @@ def oracle_c04(sim, sc, st):
                 # (whatever the scheduler gives as reason: a plain task which
                 # fits the idle pilot is not failed by the scheduler)
                 d = descr.get(uid) or {}
-                if not (d.get('tags') or {}).get('colocate') and \
+                if 'colocate' not in (d.get('tags') or {}) and \
                         not d.get('slots') and not rs_shared(d) and \
                         fits_idle(d, lay):
                     v(sim, 'C04', 'fit_failed', 'scheduler', uid,
@@ -1401,6 +1403,31 @@ def oracle_c08_sched(sim, sc, st):
             for f in fins:
                 if f.get('state') == rps.CANCELED:
                     v(sim, 'C08', 'bystander_canceled', 'scheduler', uid, {},
+                      len(sim.events))
+    # a named task which the scheduler had in its hands when the request
+    # reached it is not placed later on
+    handed_t, grant_t = dict(), dict()
+    for ev in sim.events:
+        if ev['kind'] == 'q_get' and \
+                ev.get('chan') == rpc.AGENT_SCHEDULING_QUEUE and \
+                'agent_scheduling' in str(ev.get('who')):
+            for uid, _ in ev['m'].get('things', []):
+                handed_t.setdefault(uid, ev['t'])
+        elif ev['kind'] == 'q_put' and \
+                ev.get('chan') == rpc.AGENT_EXECUTING_QUEUE and \
+                'agent_scheduling' in str(ev.get('who')):
+            for uid, _ in ev['m'].get('things', []):
+                grant_t.setdefault(uid, ev['t'])
+    for ev in sim.events:
+        if ev['kind'] == 'deliver' and \
+                ev.get('chan') == rpc.CONTROL_PUBSUB and \
+                'agent_scheduling' in str(ev.get('to')) and \
+                ev['m'].get('cmd') == 'cancel_tasks':
+            for uid in ev['m'].get('uids') or []:
+                if uid in handed_t and handed_t[uid] <= ev['t'] and \
+                        uid in grant_t and grant_t[uid] > ev['t'] + 0.5:
+                    v(sim, 'C08', 'named_placed_later', 'scheduler', uid,
+                      {'request_at': ev['t'], 'placed_at': grant_t[uid]},
                       len(sim.events))
     L = st['ledger']
     if st['cancel_reqs']:
